@@ -171,6 +171,9 @@ fn last-index {|str substr| }
 #doc:added-in 0.21
 # Outputs a string consisting of `$n` copies of `$s`.
 #
+# The result may be at most 2147483647 bytes long; it is an error if `$n` is
+# negative or asks for a longer result.
+#
 # Examples:
 #
 # ```elvish-transcript
